@@ -54,7 +54,7 @@ Qed.
 Lemma eval_stmts_nf E ss : forall locals, eval_stmts E ss locals <> OutOfFuel.
 Proof.
   induction ss as [|s t IH]; intros locals; cbn [eval_stmts]; [discriminate|].
-  destruct s as [l rv|rv|h l m]; try apply IH.
+  destruct s as [l rv|rv|h l m]; try apply IH; [|destruct rv; try apply IH; discriminate].
   apply bind_nf.
   - destruct rv; try discriminate.
     + apply bind_nf; [apply tev_nf|intros; discriminate].
